@@ -67,6 +67,14 @@ var uniDefault = &universe[K, V]{
 
 func mod(x, m int) int { return ((x % m) + m) % m }
 
+// res formats a lookup result for messages; the first component is meaningless when ok is false.
+func res(name string, ok bool) string {
+	if !ok {
+		return "(_,false)"
+	}
+	return "(" + name + ",true)"
+}
+
 // Op kinds.
 const (
 	opAdd       = 0 // Add(key(A), val(B)) on box H
@@ -181,7 +189,7 @@ func verify[KT, VT comparable](x *box[KT, VT], bi int, evals *int) string {
 		wv, wok := x.fwd(k)
 		gv, gok := b.GetForward(k)
 		if gok != wok || (wok && gv != wv) {
-			return fmt.Sprintf("box %d: GetForward(%s) = (%s,%v), want (%s,%v) (model %v)", bi, u.kname(k), u.vname(gv), gok, u.vname(wv), wok, x)
+			return fmt.Sprintf("box %d: GetForward(%s) = %s, want %s (model %v)", bi, u.kname(k), res(u.vname(gv), gok), res(u.vname(wv), wok), x)
 		}
 		if c := b.ContainsForward(k); c != wok {
 			return fmt.Sprintf("box %d: ContainsForward(%s) = %v, want %v (model %v)", bi, u.kname(k), c, wok, x)
@@ -197,7 +205,7 @@ func verify[KT, VT comparable](x *box[KT, VT], bi int, evals *int) string {
 		wk, wok := x.rev(v)
 		gk, gok := b.GetReverse(v)
 		if gok != wok || (wok && gk != wk) {
-			return fmt.Sprintf("box %d: GetReverse(%s) = (%s,%v), want (%s,%v) (model %v)", bi, u.vname(v), u.kname(gk), gok, u.kname(wk), wok, x)
+			return fmt.Sprintf("box %d: GetReverse(%s) = %s, want %s (model %v)", bi, u.vname(v), res(u.kname(gk), gok), res(u.kname(wk), wok), x)
 		}
 		if c := b.ContainsReverse(v); c != wok {
 			return fmt.Sprintf("box %d: ContainsReverse(%s) = %v, want %v (model %v)", bi, u.vname(v), c, wok, x)
@@ -505,14 +513,14 @@ func runSmall[KT, VT comparable](c Case, u *universe[KT, VT]) pbt.Outcome {
 			what = fmt.Sprintf("box %d: probe key %s value %s", h, u.kname(k), u.vname(v))
 			wv, wok := x.fwd(k)
 			if gv, gok := x.b.GetForward(k); gok != wok || (wok && gv != wv) {
-				return pbt.Fail("[%s] op %d: box %d: GetForward(%s) = (%s,%v), want (%s,%v) (model %v)", u.name, i, h, u.kname(k), u.vname(gv), gok, u.vname(wv), wok, x)
+				return pbt.Fail("[%s] op %d: box %d: GetForward(%s) = %s, want %s (model %v)", u.name, i, h, u.kname(k), res(u.vname(gv), gok), res(u.vname(wv), wok), x)
 			}
 			if got := x.b.ContainsForward(k); got != wok {
 				return pbt.Fail("[%s] op %d: box %d: ContainsForward(%s) = %v, want %v (model %v)", u.name, i, h, u.kname(k), got, wok, x)
 			}
 			wk, wok2 := x.rev(v)
 			if gk, gok := x.b.GetReverse(v); gok != wok2 || (wok2 && gk != wk) {
-				return pbt.Fail("[%s] op %d: box %d: GetReverse(%s) = (%s,%v), want (%s,%v) (model %v)", u.name, i, h, u.vname(v), u.kname(gk), gok, u.kname(wk), wok2, x)
+				return pbt.Fail("[%s] op %d: box %d: GetReverse(%s) = %s, want %s (model %v)", u.name, i, h, u.vname(v), res(u.kname(gk), gok), res(u.kname(wk), wok2), x)
 			}
 			if got := x.b.ContainsReverse(v); got != wok2 {
 				return pbt.Fail("[%s] op %d: box %d: ContainsReverse(%s) = %v, want %v (model %v)", u.name, i, h, u.vname(v), got, wok2, x)
